@@ -13,7 +13,7 @@ REQUIRE = {'any': {'share_sharings': 300, 'zero_sharings': 300}}
 LEVEL_TEXT = 'exploration: all (m,t) with 2t<m<=7, prime/binary/extension fields, real PRFs and adversarial PRF outputs, batch sizes 0,1,2,17'
 LEVEL_NOTE = 'trusted: vlib/oracles/ref.py; hashlib only through the real PRF'
 
-FIELDS = [('p', 11), ('p', 101), ('p', 2**61 - 1), ('p', 2**127 - 1), ('x', 2, 'x^8+x^4+x^3+x+1'), ('x', 3, 'x^2+1'), ('x', 2, 'x^4+x+1'), ('p', 13)]
+FIELDS = [('p', 11), ('p', 101), ('p', 2**61 - 1), ('p', 2**127 - 1), ('x', 2, 'x^8+x^4+x^3+x+1'), ('x', 3, 'x^2+1'), ('x', 2, 'x^4+x+1'), ('p', 13), ('p', 2**31 - 1), ('p', 65521)]
 
 
 def shards(tier, seed):
@@ -22,6 +22,9 @@ def shards(tier, seed):
         out.append({'name': f'list-{i}', 'field': list(f), 'np': False, 'reps': 2 if tier == 'quick' else 40})
         if tier == 'thorough' or i % 2 == 0:
             out.append({'name': f'np-{i}', 'field': list(f), 'np': True, 'reps': 1 if tier == 'quick' else 20})
+    for cfg, hist in (((5, 1, False), ('session', 2)), ((7, 2, False), ('session', 3)), ((3, 1, False), ('session', 0)), ((5, 2, False), ('assign', 1)), ((3, 1, False), None)):
+        out.append({'name': f'runtime-m{cfg[0]}t{cfg[1]}-{hist[0] + str(hist[1]) if hist else "plain"}', 'kind': 'runtime', 'cfg': list(cfg), 'history': list(hist) if hist else None,
+                    'programs': 12 if tier == 'quick' else 80, 'np': False})
     return out
 
 
@@ -55,6 +58,12 @@ class StubPRF:
 
 
 def run(shard, rec):
+    if shard.get('kind') == 'runtime':
+        # the PRSS sharings the runtime actually produces (keys, subsets and PRF objects as it keeps them across sessions and threshold changes):
+        # share monitor of C11 on random bits / masks, all parties' shares interpolated
+        from checks import c11
+        rec.count('runtime_prss_shards')
+        return c11.run(shard, rec)
     from vlib import env
     env.prepare(numpy=shard['np'])
     from mpyc import thresha
